@@ -339,6 +339,9 @@ def observe(case):
             else:
                 v = Vector([V.dec(x) for x in case["vals"]], name=case["name"])
             key = _mk_key(case["key"])
+            if case.get("lived") is not None and case["key"][0] in ("maskv", "idxv") and len(case["key"][1]) >= 2:
+                # the KEY vector has a past too: it was used as a key in another state and rewritten in place
+                key = V.lived_in(lambda xs: Vector(xs), list(case["key"][1]), case["lived"] + 7)
             return {"r": _vres(lambda: v[key]), "dt0": V.schema_obs(v.schema())}
         if op == "tab":
             t = _mk_table(case["cols"])
